@@ -438,11 +438,31 @@ def check_tables_silent(ctx):
     return {v: _as_set(val, None) for v, (val, nm, st) in cats.items()}
 
 
+def _dtype_name_vars(f) -> set:
+    """locals that hold something derived from `obj.dtype` (the extracted dtype name under whatever name it has)"""
+    assigns = [st for st in walk_scope(f.node) if isinstance(st, ast.Assign)]
+    derived = {"dtype"}
+    changed = True
+    while changed:
+        changed = False
+        for st in assigns:
+            val_names = {n.id for n in ast.walk(st.value) if isinstance(n, ast.Name)}
+            from_obj = any(isinstance(n, ast.Attribute) and norm(n).startswith("obj.dtype") for n in ast.walk(st.value))
+            if from_obj or (val_names & derived):
+                for t in st.targets:
+                    for x in ast.walk(t):
+                        if isinstance(x, ast.Name) and x.id not in derived and x.id != "_":
+                            derived.add(x.id)
+                            changed = True
+    return derived
+
+
 # ------------------------------------------------------------------------ C03.3
 def check_comparison(ctx):
     m = ctx.model
     f = m.func("_array_types._MetaAbstractArray.__instancecheck_str__")
     ctx.saw(f)
+    dnames = _dtype_name_vars(f)
     loops = [n for n in walk_scope(f.node) if isinstance(n, ast.For) and isinstance(n.iter, ast.Attribute) and n.iter.attr == "dtypes"]
     any_call = None
     if not loops:
@@ -481,7 +501,7 @@ def check_comparison(ctx):
         raise AnalysisError("C03.3: str arm of the dtype comparison not found")
     s_arm = arms["str"]
     cmp = [c for x in s_arm.body for c in ast.walk(x) if isinstance(c, ast.Compare)]
-    ok = any(len(c.ops) == 1 and isinstance(c.ops[0], ast.Eq) and {norm(c.left), norm(c.comparators[0])} == {"dtype", var} for c in cmp)
+    ok = any(len(c.ops) == 1 and isinstance(c.ops[0], ast.Eq) and any({norm(c.left), norm(c.comparators[0])} == {dn_, var} for dn_ in dnames) for c in cmp)
     if not ok:
         got = [norm(c) for c in cmp] or [norm(x) for x in s_arm.body]
         ctx.bad("C03.3", f, s_arm.body[0], f"a string dtype specifier is not compared by equality with the array's dtype name (found `{'; '.join(got)}`): "
@@ -493,7 +513,7 @@ def check_comparison(ctx):
         ctx.bad("C03.3", f, lp, "regex dtype specifiers are no longer handled", construct="no re.Pattern arm")
     else:
         calls = [c for x in p_arm.body for c in ast.walk(x) if isinstance(c, ast.Call) and isinstance(c.func, ast.Attribute) and norm(c.func.value) == var]
-        if any(c.func.attr in ("match", "fullmatch", "search") and [norm(a) for a in c.args] == ["dtype"] for c in calls):
+        if any(c.func.attr in ("match", "fullmatch", "search") and len(c.args) == 1 and norm(c.args[0]) in dnames for c in calls):
             ctx.ok("C03.3", f.qualname, f"regex specifier: {norm(calls[0])}")
         else:
             ctx.bad("C03.3", f, p_arm.body[0], "a regex dtype specifier is not matched against the dtype name")
@@ -914,6 +934,11 @@ def check_struct_dtype_everywhere(ctx, tag="C03.8"):
                     ok = any(isinstance(y, ast.If) and any(isinstance(c, ast.Call) and m.is_call_to(fn_, c, "_array_types._dtype_is_numpy_struct_array") for c in ast.walk(y.test))
                              and any(isinstance(a, ast.Assign) and any(isinstance(t, ast.Name) and t.id == var for t in a.targets) and "str(" in norm(a.value) for a in ast.walk(y))
                              for y in follow)
+                    # ... or precedes it as a guard that leaves: `if <struct>(dtype): name = str(dtype); break / return / continue`
+                    ok = ok or any(isinstance(y, ast.If) and any(isinstance(c, ast.Call) and m.is_call_to(fn_, c, "_array_types._dtype_is_numpy_struct_array") for c in ast.walk(y.test))
+                                   and any((isinstance(a, ast.Assign) and any(isinstance(t, ast.Name) and t.id == var for t in a.targets) and "str(" in norm(a.value))
+                                           or (isinstance(a, ast.Return) and a.value is not None and "str(" in norm(a.value)) for a in ast.walk(y))
+                                   and y.body and isinstance(y.body[-1], (ast.Break, ast.Return, ast.Continue)) for y in b[:i])
                     if ok:
                         ctx.ok(tag, fn_.qualname, f"`{short(st, 50)}` is followed by the structured-dtype special case")
                     else:
